@@ -70,6 +70,66 @@ chk("C16", "fault_enumeration", "E1-faults",
     "LinAlgError is raised on entry of GP.fit at every single invocation index, every run of 2-4 consecutive indices and every scattered pair, for det/auto/declared/specified noise x D; "
     "optimize() must complete and keep bounds, budget/count and truthful-result guarantees.", "Fit failure modelled as LinAlgError on entry; >=10 consecutive failures are outside the statement.", "DESIGN 4.16")
 
+chk("C06", "exploration", "E3-panel",
+    "exhaustive enumeration of a finite lattice of rotated quadratics (every panel member is run with default options); the statement's own population thresholds are evaluated over the whole lattice",
+    "The statement is a population guarantee over a random family, which a bounded exhaustive check cannot decide; what is decided is its restriction to a completely enumerated lattice "
+    "(D x eigenvalue profile x rotation x minimiser x start; 72 problems quick / 120 thorough): >= 90% within 1e-3, per-D median evaluations-to-1e-2 <= 40*D, and every single run no worse "
+    "than its snapped start (the per-run clause is also checked on every execution of C04's exploration).",
+    "No claim outside the lattice; one seed per run derived from VERIF_SEED.", "DESIGN 4.6")
+chk("C07", "model_checking", "E2-histories",
+    "explicit enumeration of process histories (<= 2 activities from a 6-letter alphabet in two slots), each replayed in a fresh interpreter, against a history-free reference; bit-identical digests",
+    "For every problem (det / noisy drawing from the global generator / heavy noise / constrained; x0 given or absent; D=1,2) every history with <= 2 activities before construction and/or between "
+    "construction and optimize() is executed in a fresh interpreter and the SHA-256 of all evaluated points, returned values and result fields is compared with the history-free reference "
+    "(itself run under two hash seeds); a long-lived interpreter additionally chains cases.",
+    "Activity alphabet of 6; histories longer than 2 only through the chained worker.", "DESIGN 4.7")
+chk("C08", "model_checking", "E3",
+    "exhaustive enumeration of constructor input cells (value lattice^5 for D=1, class products for D=2,3, dimension mismatches, spellings) against an independent 3-valued validator",
+    "Every assignment of (x0, lb, plb, pub, ub) from a per-argument lattice (absent, +-inf, NaN, finite values in every relative order, one-ulp neighbours, a decade, a plausible pair inside "
+    "the 0.1% margin) is constructed on the real BADS; MUST_REJECT cells must raise ValueError with zero target calls, MUST_ACCEPT cells must be accepted and normalised; spellings "
+    "(list/tuple/int/(D,)/(1,D)/scalars) must give identical normalised attributes and, for a fixed sub-family, identical runs.",
+    "Don't-care: x0 with NaN/inf, bounds 1-4 ulp apart; D<=3.", "DESIGN 4.8")
+chk("C11", "model_checking", "E3",
+    "exhaustive enumeration of valid bound quadruples on a magnitude lattice (1e-12..1e12, +-inf) x point lattices against an independent reference transform",
+    "Every valid quadruple from the lattice x nonlinear_scaling on/off is constructed; log flag, forward map, plausible bounds -> -1/+1, round trip < 1e-9 of the width, monotonicity, clamping of "
+    "just-outside inputs and vector-vs-matrix input are checked on a point lattice incl. one-ulp neighbours; D=2,3 products of class representatives.",
+    "Tolerances are conditioning-aware (rounding bound of (p-mu)/gamma) in addition to 1e-12.", "DESIGN 4.11")
+chk("C12", "model_checking", "E2",
+    "explicit-state breadth-first search over FunctionLogger operation histories with canonical-state deduplication, compared with a list-of-records reference after every operation",
+    "call/add operations with record flags over colliding points (sharing 0..D coordinates), cache sizes 1..3 (growth at almost every step), 3 noise levels, 3 transforms, D<=3, "
+    "all histories to depth 3 (quick) / 4-5 (thorough); every field of the log compared after every operation, untouched rows included.",
+    "Noise level 1 has no pre-evaluated additions in the menu; Y_orig compared on unmerged rows only.", "DESIGN 4.12")
+chk("C14", "model_checking", "E3-random+E1",
+    "the direction generator is run under an enumerating random source (every outcome of its integer, sign and permutation draws); every poll step of explored runs is recomputed from outside",
+    "All outcomes for D<=3 and mesh ratios {<<1,1,2,4}: +/- pairing, integrality, entry bound, exact rational determinant != 0, signed permutation for ratio 1; in runs every polled point "
+    "must equal incumbent + mesh*direction (internal coordinates), each direction at most once, at most 2D points.",
+    "Upper-triangle draws (discarded by the generator) enumerated fully / over extremes as stated in the evidence.", "DESIGN 4.14")
+chk("C15", "model_checking", "E1+E3",
+    "every GP fit/update/acquisition call of explored runs is checked through seams against the log; exhaustive enumeration of small-lattice logs for the neighbour selection",
+    "Training pairs must be log rows (value exact, noise as SD^2), nearest-k in the length-scaled metric in ascending order, size within configured limits, posterior updates append or refresh "
+    "exactly the just-logged evaluation, LCB = mean - sqrt(beta_t)*sd with the documented schedule; E3 over all logs of <= 5 lattice points x incumbents x length scales x size options.",
+    "Agreement of k with the radius/buffer rule is not an oracle (the statement only asks for the configured min/max).", "DESIGN 4.15")
+chk("C17", "model_checking", "E3+E1",
+    "exhaustive enumeration of candidate arrays x boxes x tolerances x logs x constraints on small lattices for the real filter; every filter call of explored runs through a seam",
+    "All candidate arrays with repetition and order (<=3-4 rows D=1, <=2-3 rows D=2) x box x projection flag x tolerance x logged sets x constraint; four clauses keyed separately "
+    "(inside box, feasible, distinct, not already evaluated); call-log multiplicity of deterministic runs. The 'already evaluated' clause is a recorded known finding (pinned by the suite).",
+    "Known finding listed in known_findings.json; other clauses still alarm.", "DESIGN 4.17")
+chk("C18", "model_checking", "E3+E2+E1",
+    "exhaustive (mu,lambda) table for the rank-selection mask; explicit-state BFS over hedge score histories with enumerated uniform draws; ES seams in explored runs",
+    "Mask index validity for all mu,lambda <= 64/300 and (mu,2048); hedge probabilities sum to 1 with floor and the chosen index matches the draw over all event histories to depth 4/6 for "
+    "three beta values; in runs the proposed point must be the argmin of all acquisition values collected inside the ES call, all candidates inside the mesh-rounded box and feasible, "
+    "<= 1 target call per search step; both strategies forced through the hedge draw.",
+    "All-NaN acquisition values are a don't-care for the argmin clause.", "DESIGN 4.18")
+chk("C19", "model_checking", "E1+E2",
+    "every recorded iteration of explored runs (all noise modes, noise scripts) compared with the call log; BFS over IterationHistory operation histories against a dict-of-lists reference; copy isolation by mutating every reachable array and re-running",
+    "hist.x evaluated, hist.yval observed there, func_count monotone, result.x an iterate (the last one for deterministic), fixed key set readable both ways, unknown keys rejected, "
+    "result unchanged by later mutation of the optimiser's arrays and by a second optimize().",
+    "What the second optimize() does is not judged.", "DESIGN 4.19")
+chk("C20", "model_checking", "E3+E2",
+    "every option name overridden alone, all pairs in a core set, D in {1,2,3,7}, each block in a fresh interpreter, against an independent evaluation of the ini defaults; all interleavings of construct/run/poke events of three instances in fresh interpreters",
+    "User value identity, dependent defaults (tol_noise, hedge_beta), every other option equal to its ini expression for the problem's own D, unknown names -> ValueError, "
+    "no change of another instance's options after any event, caller's dict/arrays unchanged after construction and optimize().",
+    "Don't-care: three documented normalisations; an instance's own rewrites during its own optimize().", "DESIGN 4.20")
+
 NOT_BUILT = {}
 
 ENGINES = [
